@@ -51,3 +51,7 @@ package nom
 //@   requires m != nil
 //@   ensures result == mHashOf(m)
 //@   modifies nothing
+
+// ghost: set only by the supervisor's Apply* (vm contracts), required by the chain's insert operations (chain contracts)
+//@ model AccountBlockTransaction verified bool
+//@ model MomentumTransaction verified bool
